@@ -254,6 +254,21 @@ def table_task(task):
             for e in extra[0]["trace"]:
                 e["log_p_one"] = -50.0 - float(rng.random())
             results[0]["trace"].extend(extra[0]["trace"])
+            tie = c % 4 == 3 and f.K >= 2
+            if tie:
+                # an exact half / half split between the designated tree and a conflicting relative: clades with support
+                # exactly at the default consensus threshold
+                rel = [g for g in relatives(f, rng) if g.key() != f.key()]
+                if rel:
+                    g = rel[int(rng.integers(0, len(rel)))]
+                    results[0]["trace"] = results[0]["trace"][:6]
+                    half = tracegen.make_trace(rng, data, samples, 1, 6, [g], scores="synthetic", clusters=clusters)
+                    for e in half[0]["trace"]:
+                        e["log_p_one"] = -50.0 - float(rng.random())
+                    results[0]["trace"].extend(half[0]["trace"])
+                    part.count("traces_split_half_and_half")
+                else:
+                    tie = False
             path = os.path.join(tmp, "trace.pkl.gz")
             tracegen.write_trace(results, path)
             part.count("evaluations")
@@ -273,7 +288,8 @@ def table_task(task):
                         write_map_results(path, tab, nwk)
                         table, newick = tracegen.read_table(tab), open(nwk).read().strip()
                     elif cmd == "consensus":
-                        write_consensus_results(path, tab, nwk, consensus_threshold=0.5, weight_type="counts")
+                        write_consensus_results(path, tab, nwk, consensus_threshold=0.5,
+                                                weight_type="counts" if c % 8 < 4 or not tie else "joint-likelihood")
                         table, newick = tracegen.read_table(tab), open(nwk).read().strip()
                         # 6 of 9 entries are the designated tree: its clades have support >= 2/3; others may add none
                         expected_key = None
@@ -295,10 +311,12 @@ def table_task(task):
                                 objective_check(part, case, tk, nk, data, samples, clusters, "archived table t_%d" % k)
                             k += 1
                         case.pop("archived_topology", None)
+                        if tie:
+                            expected_key = None  # two topologies share the highest count
                     part.count("tables_checked")
                     part.count("tables_%s" % cmd)
                     ccf_ref = None
-                    if cmd != "consensus" and f.K > 0:
+                    if cmd != "consensus" and f.K > 0 and not (tie and cmd == "topology-report"):
                         # per-clone values (C10 owns their optimality): map writes the best entry, the archive the
                         # first recorded copy of the topology
                         ref_tree = ref_tree_map if cmd == "map" else ref_tree_first
